@@ -78,7 +78,8 @@ func c11Start(c *lab.Ctx, caseDir string) (*mosnProc, error) {
 		cfg.Clusters = append(cfg.Clusters, jmap{"name": "cl-" + p, "type": "SIMPLE", "lb_type": "LB_ROUNDROBIN", "max_request_per_conn": 100000, "conn_buffer_limit_bytes": 32768,
 			"hosts": []jmap{{"address": u.Addr, "hostname": u.Name, "weight": 1}}})
 		cfg.Routers = append(cfg.Routers, jmap{"router_config_name": "rt-" + p, "virtual_hosts": []jmap{{"name": "vh", "domains": []string{"*"},
-			"routers": []jmap{{"match": routeMatch(p, "g"), "route": jmap{"cluster_name": "cl-" + p, "timeout": "20s"}}}}}})
+			"routers": []jmap{{"match": routeMatch(p, "gl"), "route": jmap{"cluster_name": "cl-" + p, "timeout": "90s"}},
+				{"match": routeMatch(p, "g"), "route": jmap{"cluster_name": "cl-" + p, "timeout": "20s"}}}}}})
 		cfg.Listeners = append(cfg.Listeners, mosnListener{Name: "ln-" + p, Port: ports[i], Downstream: p, Upstream: p, Router: "rt-" + p})
 		mp.ports[p] = ports[i]
 	}
@@ -192,6 +193,13 @@ func c11Proc(c *lab.Ctx) {
 		// (it stops accepting 3 s after the signal and may then drain for --drain-time-s 6)
 		c11Case{"hup-bodyslow-Http1", syscall.SIGHUP, "Http1", "body-slow"},
 	)
+	if c.Thorough() {
+		// back-to-back 1.2 s requests on a connection that starts with the old process: one of them is in flight at every decision
+		// the old process makes about the connection; and a request that stays in flight for 42 s, past the old process's
+		// connection wait (>= 39 s after the signal)
+		cases = append(cases, c11Case{"hup-slowloop-Http1", syscall.SIGHUP, "Http1", "slowloop"}, c11Case{"hup-slowloop-Http2", syscall.SIGHUP, "Http2", "slowloop"},
+			c11Case{"hup-inflight-long-Http1", syscall.SIGHUP, "Http1", "waiting-long"})
+	}
 	if c.Thorough() {
 		cases = append(cases,
 			c11Case{"term-bodyhalf-bolt", syscall.SIGTERM, "bolt", "body-half"},
@@ -366,7 +374,12 @@ func c11Loop(mp *mosnProc, cs c11Case, stop *int32, strict bool, signalled chan 
 	defer cl.close()
 	for k := 1; atomic.LoadInt32(stop) == 0; k++ {
 		tok := fmt.Sprintf("l-%s-%d", cs.name, k)
-		r := reqFor(cs.proto, "g", tok, "d20:ok")
+		plan, gap := "d20:ok", 40*time.Millisecond
+		if cs.phase == "slowloop" {
+			// back-to-back slow requests: whenever the process makes a decision about this connection, a request is in flight on it
+			plan, gap = "d1200:ok", time.Millisecond
+		}
+		r := reqFor(cs.proto, "g", tok, plan)
 		r.Timeout = 10 * time.Second
 		r.Body = bytes.Repeat([]byte("x"), 3000)
 		after := false
@@ -397,7 +410,7 @@ func c11Loop(mp *mosnProc, cs c11Case, stop *int32, strict bool, signalled chan 
 				return
 			}
 		}
-		time.Sleep(40 * time.Millisecond)
+		time.Sleep(gap)
 	}
 	return
 }
@@ -677,7 +690,7 @@ func c11Hup(c *lab.Ctx, cs c11Case, mp *mosnProc) {
 				}
 			}(p)
 		}
-	case "longlived":
+	case "longlived", "slowloop":
 		wg.Add(1)
 		go func() {
 			defer wg.Done()
@@ -690,10 +703,22 @@ func c11Hup(c *lab.Ctx, cs c11Case, mp *mosnProc) {
 				addFail(f)
 			}
 		}()
-	case "waiting", "body-half", "body-late", "body-late-big", "body-slow":
-		if cs.phase == "waiting" {
+	case "waiting", "waiting-long", "body-half", "body-late", "body-late-big", "body-slow":
+		if cs.phase == "waiting" || cs.phase == "waiting-long" {
 			cl := mp.client(cs.proto, "pivot")
-			go func() { inflight <- cl.do(reqFor(cs.proto, "g", tok, "d2500:ok")) }()
+			plan, key := "d2500:ok", "g"
+			if cs.phase == "waiting-long" {
+				// The old process sleeps 3 s after the new one is ready, stops accepting, waits 2*graceful_timeout + 2*15 s for its
+				// connections (>= 39 s after the signal in all), and then makes its final stop, which waits for requests in flight up
+				// to --drain-time-s 6. The upstream answers 42 s after the request was sent: either before the final stop, or while the
+				// final stop is waiting with at least 3 s of its budget left - never later
+				plan, key = "d42000:ok", "gl"
+			}
+			go func() {
+				r := reqFor(cs.proto, key, tok, plan)
+				r.Timeout = 100 * time.Second
+				inflight <- cl.do(r)
+			}()
 			if !mp.waitUpstreamSaw(tok, 5*time.Second) {
 				c.Inconclusive("pivot request did not reach the upstream")
 				return
@@ -709,10 +734,10 @@ func c11Hup(c *lab.Ctx, cs c11Case, mp *mosnProc) {
 			}
 		}
 	}
-	if cs.phase == "newconns" || cs.phase == "longlived" {
+	if cs.phase == "newconns" || cs.phase == "longlived" || cs.phase == "slowloop" {
 		time.Sleep(700 * time.Millisecond) // some traffic before the signal
 	}
-	c11Jitter(c, cs, map[string]int{"waiting": 2000, "body-half": 300, "body-late": 300, "body-late-big": 300, "body-slow": 300, "newconns": 400, "longlived": 400}[cs.phase])
+	c11Jitter(c, cs, map[string]int{"waiting": 2000, "waiting-long": 1, "body-half": 300, "body-late": 300, "body-late-big": 300, "body-slow": 300, "newconns": 400, "longlived": 400, "slowloop": 400}[cs.phase])
 	_ = mp.cmd.Process.Signal(syscall.SIGHUP)
 	close(signalled)
 	if late != nil && cs.phase == "body-slow" {
@@ -733,7 +758,7 @@ func c11Hup(c *lab.Ctx, cs c11Case, mp *mosnProc) {
 	time.Sleep(1500 * time.Millisecond)
 	atomic.StoreInt32(&stop, 1)
 	wg.Wait()
-	if cs.phase == "waiting" || strings.HasPrefix(cs.phase, "body-") {
+	if strings.HasPrefix(cs.phase, "waiting") || strings.HasPrefix(cs.phase, "body-") {
 		var ev clEvent
 		select {
 		case ev = <-inflight:
@@ -754,7 +779,7 @@ func c11Hup(c *lab.Ctx, cs c11Case, mp *mosnProc) {
 			c.Violation("no-request-fails-because-of-the-switch", "C11/request-failed-during-upgrade/"+sig,
 				fmt.Sprintf("%s: %d request(s) failed during the hot upgrade (%d succeeded); first: %s", cs.name, len(fails), okN, fails[0]), w)
 		}
-		if atomic.LoadInt64(&okN) < 10 {
+		if atomic.LoadInt64(&okN) < 10 && cs.phase != "slowloop" || atomic.LoadInt64(&okN) < 4 {
 			c.Inconclusive("too few requests during the upgrade window")
 		}
 	}
